@@ -155,6 +155,13 @@ impl Parser<'_> {
         self.peek() == kind
     }
 
+    /// Re-checks a token the caller has just seen through `at`/`peek`. Unlike `at` it does not
+    /// spend fuel: when the caller's look took the last unit of fuel, `at` would answer `eof`
+    /// for the very token the caller saw, and an `assert!(p.at(..))` on entry would fail.
+    pub fn at_current(&mut self, kind: TokenKind) -> bool {
+        self.input.peek() == kind
+    }
+
     pub fn at_any(&mut self, kinds: &[TokenKind]) -> bool {
         let k = self.peek();
         kinds.contains(&k)
